@@ -318,10 +318,19 @@ type deadline struct {
 func makeDeadline() deadline { return deadline{cancel: make(chan struct{})} }
 
 func (d *deadline) set(t time.Time) {
-	if d.timer != nil && !d.timer.Stop() {
+	// (several tasks may set deadlines on one endpoint; waiting for a fired timer's callback is a
+	// scheduling point, so the state is re-examined after it)
+	for d.timer != nil {
+		tm := d.timer
+		if tm.Stop() {
+			d.timer = nil
+			break
+		}
 		<-d.cancel // wait for the timer callback to finish and close cancel
+		if d.timer == tm {
+			d.timer = nil
+		}
 	}
-	d.timer = nil
 	closed := isClosedChan(d.cancel)
 	if t.IsZero() {
 		if closed {
@@ -334,7 +343,11 @@ func (d *deadline) set(t time.Time) {
 			d.cancel = make(chan struct{})
 		}
 		c := d.cancel
-		d.timer = time.AfterFunc(dur, func() { close(c) })
+		d.timer = time.AfterFunc(dur, func() {
+			if !isClosedChan(c) {
+				close(c)
+			}
+		})
 		return
 	}
 	if !closed {
